@@ -13,6 +13,17 @@ TB_VALUE = TB_COMMON + [
 ]
 
 PROPS = {
+    "C06": {
+        "n_quick": 70, "n_thorough": 2500,
+        "check_fn": "k06_check", "prop_cases_are_inputs": True,
+        "rule": "for every generated pair of values (all kinds, nulls, refined unknowns, marks at every depth): results of Mark/WithMarks/WithSameMarks/Unmark/UnmarkDeep/MarkWithPaths, "
+                "all five collection/structure constructors, Transform, UnknownAsNull, operation methods, ElementIterator, Refine, convert.Convert to mutated/generalised/optional-attribute "
+                "targets (also from null and unknown dynamic inputs), JSON and MessagePack round trips, nine stdlib functions; each returned value is judged by the hook, by a public-API walk "
+                "and by the Gallina wf_value; non-trivial = structured, marked or unknown values",
+        "trusted_base": TB_VALUE + ["the hook cty.VerifWellFormed itself (its verdict is compared with the model's wf_value on every value)"],
+        "assumptions": ["values whose strings fall outside the modelled %q domain are monitored by the hook and the public walk only"],
+        "partial": ["preservation theorems cover primitive constructors, tuple/list typing and the logical/comparison operations for all operands; the other API families are covered by the monitor on every run (the value model's wf is evaluated on each result), not yet by theorems"],
+    },
     "C05": {
         "n_quick": 420, "n_thorough": 8000,
         "check_fn": "k05_check",
